@@ -582,7 +582,7 @@ impl<'tcx> TyGenContext<'_, 'tcx> {
             .into();
 
             let param_info = ParamInfo {
-                name: self.formatter.fmt_param_name(param.name.as_str()),
+                name: self.formatter.fmt_method_param_name(param.name.as_str()),
                 ty: param_type_str,
             };
 
